@@ -131,6 +131,34 @@ pub fn observable_hash(t: &Trace) -> u64 {
     h.finish()
 }
 
+/// What client 0 observes (its results, the callbacks for ITS values, the final live entries,
+/// charges and metrics): used to compare `prefix; clear; suffix` with `suffix` on a fresh cache,
+/// where the prefix runs as the deterministic setup and the suffix as client 0.
+pub fn client0_hash(t: &Trace) -> u64 {
+    let mut h = DefaultHasher::new();
+    let mut recs: Vec<&Rec> = t.recs.iter().filter(|r| r.th == 0).collect();
+    recs.sort_by_key(|r| r.idx);
+    for r in recs {
+        (r.idx, &r.res).hash(&mut h);
+    }
+    let mine = |v: &Val| v.seq / 1000 == 1;
+    let mut cbs: Vec<(u8, Val, i64)> = t.ledger.iter().filter_map(|e| e.val.filter(|v| mine(v)).map(|v| (e.kind as u8, v, e.cost))).collect();
+    cbs.sort();
+    cbs.hash(&mut h);
+    if let Some(s) = t.snaps.last() {
+        let mut live: Vec<(u64, Val, u128)> = s.entries.iter().map(|e| (e.index, e.value, e.d_ns)).collect();
+        live.sort();
+        live.hash(&mut h);
+        let mut kc = s.policy.key_costs.clone();
+        kc.sort();
+        (s.policy.used, kc, s.len).hash(&mut h);
+        if let Some(m) = &s.metrics {
+            (m.hits, m.misses, m.keys_added, m.keys_updated, m.keys_evicted, m.cost_added, m.cost_evicted, m.sets_dropped, m.sets_rejected, m.gets_kept, m.gets_dropped).hash(&mut h);
+        }
+    }
+    h.finish()
+}
+
 struct Acc {
     states: HashSet<u64>,
     interesting: HashSet<u64>,
@@ -145,6 +173,8 @@ pub struct RunCfg {
     pub max_violations_per_job: usize,
     pub stop_on_first: bool,
     pub keep_job_states: bool,
+    /// hash of what counts as one outcome (default: `trace_hash`)
+    pub state_hash: fn(&Trace) -> u64,
 }
 impl RunCfg {
     pub fn new(secs: u64) -> Self {
@@ -155,17 +185,18 @@ impl RunCfg {
             max_violations_per_job: 3,
             stop_on_first: false,
             keep_job_states: false,
+            state_hash: trace_hash,
         }
     }
 }
 
-fn make_body(p: Arc<Program>, oracle: OracleFn, interest: InterestFn, acc: Arc<Mutex<Acc>>) -> Arc<dyn Fn() + Send + Sync> {
+fn make_body(p: Arc<Program>, oracle: OracleFn, interest: InterestFn, acc: Arc<Mutex<Acc>>, state_hash: fn(&Trace) -> u64) -> Arc<dyn Fn() + Send + Sync> {
     Arc::new(move || match run_program(&p) {
         Ok(t) => {
             for (class, msg) in oracle(&p, &t) {
                 rt::violation(&class, msg);
             }
-            let h = if observable_only() { observable_hash(&t) } else { trace_hash(&t) };
+            let h = state_hash(&t);
             let mut a = acc.lock().unwrap();
             a.states.insert(h);
             if interest(&p, &t) {
@@ -180,11 +211,6 @@ fn make_body(p: Arc<Program>, oracle: OracleFn, interest: InterestFn, acc: Arc<M
             acc.lock().unwrap().rejected = true;
         }
     })
-}
-
-thread_local! { static OBS_ONLY: std::cell::Cell<bool> = const { std::cell::Cell::new(false) }; }
-fn observable_only() -> bool {
-    OBS_ONLY.with(|o| o.get())
 }
 
 fn new_acc() -> Acc {
@@ -213,7 +239,6 @@ pub fn run_jobs(jobs: Vec<Job>, oracle: OracleFn, interest: InterestFn, rc: RunC
             std::thread::Builder::new()
                 .stack_size(16 << 20)
                 .spawn(move || {
-                    OBS_ONLY.with(|o| o.set(rc.keep_job_states));
                     let cur = std::rc::Rc::new(std::cell::RefCell::new(Cursor {
                         job: None,
                         bound_ix: 0,
@@ -282,7 +307,7 @@ pub fn run_jobs(jobs: Vec<Job>, oracle: OracleFn, interest: InterestFn, rc: RunC
                                                 ..Default::default()
                                             },
                                             fixed: None,
-                                            body: make_body(p, oracle, interest, acc.clone()),
+                                            body: make_body(p, oracle, interest, acc.clone(), rc.state_hash),
                                         });
                                     }
                                     close_job(&mut c);
